@@ -56,6 +56,8 @@ func runC18(c *Ctx) {
 	ruleLoopCarriedArgs(c, "R18g", 4)
 	ruleBoolReaders(c, "R18i", 1)
 	ruleBulkElementKeysDocumented(c, "R18j")
+	ruleResultsAppendedInOrder(c, "R18k")
+	ruleContinueOnFailureIsRead(c, "R18l")
 	ruleAnswerEndsHandler(c, "R18h", func(fn *ssa.Function) bool { return strings.Contains(strings.ToLower(fn.Name()), "bulk") }, 1)
 	const rule = "R18a"
 	fn := c.MustFn(rule, pkgV2, "ProcessBulk")
